@@ -104,11 +104,14 @@ StartBudgetOK(w) ==
 \* C10 at a start: tries remain, and no COMPLETED status of the scope violates the rerun set or hits the stop set
 \* (statuses of executions still in flight are unknown at decision time)
 DoneStatuses(t, sk) == {execs[i].s : i \in {j \in (IF t \in Stateless THEN {x \in ExecIdx : execs[x].t = t} ELSE ExecsOf(t, sk)) : execs[j].s # "RUN"}}
-RerunRuleOK(w) == LET sk == ScopeKey(w)
+\* for an object creation the decision is taken before the pre-step: the status rules are evaluated there (atPre),
+\* the main step only re-checks the budget
+RerunRuleOK(w, statusrules) ==
+                  LET sk == ScopeKey(w)
                       done == DoneStatuses(E.t, sk) \ {"LOST"}
-                  IN /\ Note(T.norerunrule \/ done = {} \/ T.maxtries > 1, "C10", <<"tries-retried-without-retries", E.t, sk, done>>)
-                     /\ Note(T.norerunrule \/ done \subseteq SeqToSet(T.rerun), "C10", <<"tries-continued-outside-rerun-set", E.t, sk, done>>)
-                     /\ Note(T.norerunrule \/ done \cap SeqToSet(T.stop) = {}, "C10", <<"tries-continued-after-stop-status", E.t, sk, done>>)
+                  IN /\ Note(T.norerunrule \/ ~statusrules \/ done = {} \/ T.maxtries > 1, "C10", <<"tries-retried-without-retries", E.t, sk, done>>)
+                     /\ Note(T.norerunrule \/ ~statusrules \/ done \subseteq SeqToSet(T.rerun), "C10", <<"tries-continued-outside-rerun-set", E.t, sk, done>>)
+                     /\ Note(T.norerunrule \/ ~statusrules \/ done \cap SeqToSet(T.stop) = {}, "C10", <<"tries-continued-after-stop-status", E.t, sk, done>>)
                      /\ Note(T.norerunrule \/ Cardinality(IF E.t \in Stateless THEN {x \in ExecIdx : execs[x].t = E.t} ELSE ExecsOf(E.t, sk)) < Budget,
                              "C10", <<"tries-over-budget", E.t, sk, Budget>>)
 UidFresh(w) == Note(~\E i \in ExecIdx : execs[i].t = E.t /\ execs[i].w = w /\ execs[i].u = E.u, "C10", <<"uid-reused", E.t, w, E.u>>)
@@ -116,14 +119,14 @@ UidFresh(w) == Note(~\E i \in ExecIdx : execs[i].t = E.t /\ execs[i].w = w /\ ex
 Ev(a) == tr <= Len(Traces) /\ l <= Len(T.events) /\ E.a = a /\ l' = l + 1 /\ tr' = tr
 
 Start == /\ Ev("start")
-         /\ StartOK(E.w) /\ SourcesOK(E.w) /\ StartBudgetOK(E.w) /\ UidFresh(E.w) /\ RerunRuleOK(E.w)
+         /\ StartOK(E.w) /\ SourcesOK(E.w) /\ StartBudgetOK(E.w) /\ UidFresh(E.w) /\ RerunRuleOK(E.w, E.t \notin ObjRoots)
          /\ Note(~T.dry, "C02", <<"executed-in-dry-run", E.t>>)
          /\ running' = {r \in running : ~(r.t = E.t /\ r.w = E.w /\ r.pre)} \cup {[t |-> E.t, w |-> E.w, pre |-> FALSE]}
          /\ execs' = Append(execs, [t |-> E.t, w |-> E.w, u |-> E.u, s |-> "RUN"])
          /\ UNCHANGED <<pool, pres, scans, gone, ended>>
 
 PreStart == /\ Ev("prestart")
-            /\ StartOK(E.w) /\ Note(E.own, "C08", <<"not-own-worker", E.t, E.w>>)
+            /\ StartOK(E.w) /\ Note(E.own, "C08", <<"not-own-worker", E.t, E.w>>) /\ RerunRuleOK(E.w, TRUE)
             /\ Note(~\E i \in 1..Len(pres) : pres[i].t = E.t /\ pres[i].w = E.w /\ pres[i].u = E.u, "C10", <<"uid-reused-pre-step", E.t, E.w, E.u>>)
             /\ Note(T.overrun \/ Cardinality({r \in RunningOf(E.t, ScopeKey(E.w)) : r.w # E.w}) < ConcLimit, "C04",
                     <<"concurrent-creation", E.t, {r.w : r \in RunningOf(E.t, ScopeKey(E.w))} \cup {E.w}>>)
